@@ -2530,3 +2530,99 @@ func c09r18(rc *core.RC) {
 		rc.Unknown("json.Decoder/methods-with-error", token.NoPos, "found %d exported methods of Decoder that return an error (confirmed: 4)", n)
 	}
 }
+
+// ---- C09.R19 the text captured for a callback begins at the value ----
+
+// The stream functions that hand a value's text to UnmarshalJSON / UnmarshalText (or keep it) mark the start of the
+// text, step over the value with skipValue and slice the window: s.buf[start:s.cursor]. skipValue skips white space in
+// front of the value by itself, so the mark has to be taken behind that white space, and the only scanner that can see
+// all of it is Stream.skipWhiteSpace, which refills the window at its end. A mark taken without it (or behind a loop
+// over the bytes of the current window) leaves the white space in the text whenever it is there (or whenever a read
+// boundary falls into it): the method receives `   {"a":1}` in stream mode and `{"a":1}` in buffer mode.
+// Obligation: in every stream function that captures s.buf[start:…] behind s.skipValue, the statement in front of
+// `start := s.cursor` is a call of s.skipWhiteSpace().
+func c09r19(rc *core.RC) {
+	p := rc.P
+	pk := p.Pkg("decoder")
+	if pk == nil {
+		rc.Unknown("decoder", token.NoPos, "package not found")
+		return
+	}
+	info := pk.TypesInfo
+	n := 0
+	for _, fd := range p.Funcs("decoder") {
+		if fd.Body == nil {
+			continue
+		}
+		name := p.FuncName(fd)
+		// captures: s.buf[start:…] with start a local
+		starts := map[types.Object]bool{}
+		ast.Inspect(fd.Body, func(m ast.Node) bool {
+			se, ok := m.(*ast.SliceExpr)
+			if !ok || se.Low == nil {
+				return true
+			}
+			if f := core.FieldOf(info, se.X); f == nil || f.Name() != "buf" {
+				return true
+			}
+			if o, ok := core.ObjOf(info, se.Low).(*types.Var); ok && !o.IsField() {
+				starts[o] = true
+			}
+			return true
+		})
+		if len(starts) == 0 {
+			continue
+		}
+		// only functions that step over the value with skipValue
+		skips := false
+		ast.Inspect(fd.Body, func(m ast.Node) bool {
+			if c, ok := m.(*ast.CallExpr); ok && core.CalleeName(info, c) == "decoder.Stream.skipValue" {
+				skips = true
+			}
+			return true
+		})
+		if !skips {
+			continue
+		}
+		k := 0
+		var walk func(list []ast.Stmt)
+		walk = func(list []ast.Stmt) {
+			for i, st := range list {
+				if as, ok := st.(*ast.AssignStmt); ok && len(as.Lhs) == 1 && len(as.Rhs) == 1 && starts[core.ObjOf(info, as.Lhs[0])] {
+					if f := core.FieldOf(info, as.Rhs[0]); f != nil && f.Name() == "cursor" {
+						k++
+						n++
+						rc.Touch(name)
+						behind := false
+						if i > 0 {
+							if es, ok := list[i-1].(*ast.ExprStmt); ok {
+								if c, ok := es.X.(*ast.CallExpr); ok && core.CalleeName(info, c) == "decoder.Stream.skipWhiteSpace" {
+									behind = true
+								}
+							}
+						}
+						rc.Check(behind, fmt.Sprintf("%s/capture-start#%d behind-skipWhiteSpace", name, k), as.Pos(), "the start of the text that is captured behind skipValue is marked without s.skipWhiteSpace() directly in front: white space in front of the value (skipValue steps over it) becomes part of the text handed to the method in stream mode, and not in buffer mode")
+					}
+				}
+				// nested statement lists
+				ast.Inspect(st, func(m ast.Node) bool {
+					switch b := m.(type) {
+					case *ast.BlockStmt:
+						if ast.Node(b) != ast.Node(st) {
+							walk(b.List)
+							return false
+						}
+					case *ast.CaseClause:
+						walk(b.Body)
+						return false
+					}
+					return true
+				})
+			}
+		}
+		walk(fd.Body.List)
+	}
+	if n < 4 {
+		rc.Unknown("decoder/capture-starts", token.NoPos, "found %d marks of a captured text in stream functions that use skipValue (confirmed: 6)", n)
+	}
+}
